@@ -171,3 +171,10 @@ claim("C07", "variant-arm agreement + doomed-arm checks + reachability on both o
       "stored CommittedSuccess/CommittedFailure/Cancelled statuses are all rejecting with no catch-all; the tracker is updated for success and "
       "failure whenever the epoch is readable, writing the status matching is_success; only subintents of failed transactions are skipped; the "
       "tracker ring (epochs per partition x partitions) covers every configured max_epoch_range. Ring arithmetic over long histories is not decided.")
+
+claim("C08", "who-may-call table + guard dominance of the auth hook and of check_permission + verdict-arm analysis",
+      "Decides the 'every protected dispatch is checked' clause: all kernel_invoke callers are the four call APIs (each behind "
+      "SystemModuleMixer::on_call_*(..)? with the actor carrying the hook's auth zone) or the three blueprint-hook dispatchers; the mixer runs "
+      "AuthModule::on_call_* on the AUTH arm; AuthModule returns Ok only after check_permission on the resolved permission; check_permission "
+      "returns Ok only for AllowAll or an Authorized verdict (Failed arms doomed, no catch-all); evaluator matches have no catch-all. The iff "
+      "semantics of rule evaluation is not decided.")
